@@ -10,8 +10,8 @@ RULE = ('lines >= 1 unit long (random, axis-parallel, steep with dx in [1e-7,1e-
         'linear-in-x / linear-in-y ones x t at least 1e-3 from stationary parameters; cubics without self-overlap (monotone-ish fans) x t; '
         'off-carrier points for the negative case; non-trivial = distinct (segment, t)')
 NOT_PROVED = ['cubic lookup (coarse search; within 2% of the length): hand-modelled through the sampler, search only',
-              'floating-point tolerances 1e-9 (lines) and 1e-6 (quadratics): measured']
-ASSUMPTIONS = ['Python float = IEEE binary64']
+              'floating-point tolerance for LINES: PROVED (Proofs/C15float.v, Flocq): for finite coordinates |c| <= M, 1 <= M <= 2^25, larger extent >= 1/2 and finite t in [0,1] the binary64 lookup of the binary64 point at t passes its own 2e-7 re-check, is the correctly rounded quotient in a coordinate of (almost) maximal extent, differs from t by at most 14*2^-53*M/extent, and its point is within 30*2^-53*M <= 1e-9*M of the query; it is never the sentinel -1 and lies in [-2^-23, 1+2^-23] -- membership in [0,1] itself is FALSE in floats (two witnesses, the recorded finding); for quadratics (1e-6) the float tolerance is measured']
+ASSUMPTIONS = ['Python float = IEEE binary64', 'Coq.Floats.FloatAxioms / Uint63 specification axioms (stdlib) for the float-instance theorems']
 HAND_FINGERPRINTS = [('cubicbezier.py', 'CubicBezier.tOfPoint')]
 P = Point
 
